@@ -107,7 +107,9 @@ class Interp:
         for k, d in zip(params.kwonlyargs, params.kw_defaults):
             env[k.arg] = kwargs[k.arg] if k.arg in kwargs else self.eval(d, {})
         saved = (self.loop_specs, self.loop_counter)
-        self.loop_specs, self.loop_counter = (loop_specs or {}), [0]
+        fors = sorted([n for n in ast.walk(fdef) if isinstance(n, ast.For)], key=lambda n: (n.lineno, n.col_offset))
+        # loop ordinals are SYNTACTIC (source order), so a contract stays bound whichever path reaches the loop
+        self.loop_specs, self.loop_counter = (loop_specs or {}), {id(n): k for k, n in enumerate(fors)}
         self.fn_stack.append(qualname or fdef.name)
         try:
             self.exec_block(fdef.body, env)
@@ -211,7 +213,7 @@ class Interp:
 
     def st_For(self, s, env):
         it = self.eval(s.iter, env)
-        ordinal = self.loop_counter[0]; self.loop_counter[0] += 1
+        ordinal = self.loop_counter.get(id(s), -1)
         if isinstance(it, (list, tuple)):
             for x in it:
                 self.assign(s.target, x, env)
@@ -276,7 +278,10 @@ class Interp:
                     val = fresh_
                 self._acc_set(env, var, val)
             self.assign(s.target, elem(i), env)
-            self.exec_block(s.body, env)
+            if isinstance(it, SList) and it.guard is not None and not eng.decide(it.guard(i)):
+                pass            # filtered out: the iteration does not happen
+            else:
+                self.exec_block(s.body, env)
             vn, lemn = split(view(i + 1))
             for var, want in vn.items():
                 if isinstance(want, Havoc):
@@ -290,6 +295,11 @@ class Interp:
         # 3. exit
         vx, lemx = split(view(n_exit))
         for l in lemx: eng.assume(l)
+        # python leaves the loop variable bound to the last element
+        if isinstance(it, SList) and it.guard is None:
+            if eng.decide(n_exit > lo):
+                try: self.assign(s.target, elem(n_exit - 1), env)
+                except Unsupported: pass
         for var, val in vx.items():
             if isinstance(val, Havoc):
                 fresh_ = val.make()
@@ -447,6 +457,12 @@ class Interp:
         if len(e.generators) != 1: raise Unsupported("nested dict comprehension")
         it = self.eval(gen.iter, env)
         items = self.iterate_concrete_or_none(it)
+        if items is None and isinstance(it, SList) and not gen.ifs and isinstance(e.key, ast.Name) and isinstance(gen.target, ast.Name) \
+                and e.key.id == gen.target.id:
+            def base(k, it=it, env=env):
+                env2 = dict(env); self.assign(gen.target, it.elem(k), env2)
+                return self.eval(e.value, env2)
+            return KDict(it, base)
         if items is None: raise Unsupported("dict comprehension over symbolic iterable")
         out = {}
         for x in items:
@@ -470,6 +486,14 @@ class Interp:
         if isinstance(it, QList) and not gen.ifs and isinstance(e.elt, ast.Attribute) and e.elt.attr == "id" \
                 and isinstance(e.elt.value, ast.Name) and isinstance(gen.target, ast.Name) and e.elt.value.id == gen.target.id:
             return QIds(it)
+        if isinstance(it, SList) and len(gen.ifs) == 1 and isinstance(e.elt, ast.Name) and isinstance(gen.target, ast.Name) and e.elt.id == gen.target.id \
+                and isinstance(gen.ifs[0], ast.Compare) and isinstance(gen.ifs[0].ops[0], ast.In) and self.world is not None:
+            cond = gen.ifs[0]
+            container = self.eval(cond.comparators[0], env)
+            if isinstance(container, SList):
+                def guard(i, it=it, container=container):
+                    return self.world.member_formula(self, container, it.elem(i))
+                return SList(it.n, it.elem, f"[{it.name} if in {container.name}]", unordered=it.unordered, guard=guard)
         if isinstance(it, SList):
             if gen.ifs: return Opaque("filtered-list")      # only ever rendered into a message
             def elem(i, it=it, env=env):
@@ -789,6 +813,11 @@ class Interp:
         if isinstance(base, Arr) and isinstance(key, PyNum) and z3.is_int_value(key.z) and key.z.as_long() in (0, -1) and base.origin is not None:
             self.index_facts(base.origin)
             return PyNum(base.mag(base.origin.tmin if key.z.as_long() == 0 else base.origin.tmax))
+        if isinstance(base, KDict):
+            k = self.world.key_index(self, base.keys, key)
+            for ok, ov in reversed(base.overlay):
+                if self.eng.decide(k == ok): return ov
+            return base.base(k)
         if isinstance(base, QList) and isinstance(key, PyNum):
             self.lib_pre("list index in range", z3.And(key.z >= 0, key.z < base.n))
             return QElem(base, base.src(key.z))
@@ -814,6 +843,8 @@ class Interp:
         raise Unsupported(f"subscript {type(base).__name__}[{type(key).__name__}]")
 
     def store_subscript(self, base, key, v):
+        if isinstance(base, KDict):
+            base.overlay.append((self.world.key_index(self, base.keys, key), v)); return
         if isinstance(base, PArr) and isinstance(key, PyNum) and isinstance(v, PyNum):
             old, k_, val = base.at, key.z, v.r
             self.lib_pre("array index in range", z3.And(k_ >= 0, k_ < _z(base.n)))
@@ -1023,12 +1054,12 @@ class Interp:
     def add_universal(self, f):
         """f(t) holds for every time point t: instantiate at the skolem point and at every witness point known"""
         reg = self.eng.run.cache.setdefault("universals", ([], []))
-        for t in [TT] + reg[1]: self.eng.assume(f(t))
+        for t in [TT] + reg[1]: self.eng.assume_def(f(t))
         reg[0].append(f)
 
     def add_point(self, w):
         reg = self.eng.run.cache.setdefault("universals", ([], []))
-        for f in reg[0]: self.eng.assume(f(w))
+        for f in reg[0]: self.eng.assume_def(f(w))
         reg[1].append(w)
 
     def lib_pre_same_index(self, a: Vec, b: Vec, what):
@@ -1525,6 +1556,22 @@ class Interp:
     def equiv(self, got, want, name):
         """emit obligations `got == want` on the views (want may be an ExplU / spec value)"""
         eng = self.eng
+        if isinstance(want, KDict):
+            if not isinstance(got, KDict): eng.oblige(f"{name}/kind", False); return
+            KK = z3.Int("key!")      # skolem key
+            saved = list(eng.run.pc)
+            eng.assume(z3.And(KK >= 0, KK < want.keys.n))
+            g = got.base(KK)
+            for ok, ov in got.overlay:
+                pass
+            # value of the code-level dict at the skolem key: last matching write, else base
+            def lookup(d):
+                for ok, ov in reversed(d.overlay):
+                    if eng.decide(KK == ok): return ov
+                return d.base(KK)
+            self.equiv(lookup(got), lookup(want), name + "[key]")
+            eng.run.pc[:] = saved
+            return
         if isinstance(want, Opt):
             if isinstance(got, Opt): got = self.resolve_opt(got)
             eng.oblige(f"{name}/none-ness", want.is_none == (got is NONE))
